@@ -162,7 +162,7 @@ func TestC14GnuPatch(t *testing.T) {
 	gen := rapid.Custom(genFmtCase)
 	for i := 0; i < nRand; i++ {
 		c := gen.Example(base + i)
-		c.FI = nil
+		c.FI, c.Poison = nil, 0
 		cases = append(cases, c)
 	}
 	dir := filepath.Join(h.OutDir, "patchwork")
